@@ -81,6 +81,13 @@ def c04(tier, seed):
 
 
 def c07(tier, seed):
+    r = _c07(tier, seed)
+    m = mcp_check(tier, seed)      # the third derivation of the tax year lives in the MCP explain_matching handler
+    r['findings'] += [f for f in m['findings'] if f['prop'] == 'C07']
+    return r
+
+
+def _c07(tier, seed):
     return combine([calendar_family()] + reports(tier, ['report_q'], ['report_t', 'report_one_t']), ['boundary_dates', 'slices'],
                    'every date 1899-12-31..2101-12-31 (exhaustive, one TLC state each) through TaxPeriod::from_date, the '
                    'all-years grouping and the single-year filter for the years Y-1, Y, Y+1; plus, for every report-family '
